@@ -78,10 +78,12 @@ def run(ctx):
         plot = (cid[1] % 3 == 0)
         hist = bool(cid[1] % 2)
         explicit = (cid[1] % 4) < 2
+        wide = cid[1] % 6 == 3
         ncl = [1, 3, 2, 4][(cid[1] // 3) % 4] if ctx.tier == 'thorough' else [4, 3, 2, 1][cid[1] // 3 % 4]    # plotted workbooks: cid 0 -> 4, cid 3 -> 3
         itab, btab, stab, info = excelgen.experiment(rng, base, n_inst=int(rng.integers(1, 3)), n_beads=int(rng.integers(1, 3)) if plot or rng.random() < 0.7 else 0,
                                                      n_samples=(int(rng.integers(1, 4)) if plot else int(rng.integers(1, 5))) if cid[1] % 6 != 5 else 24,   # one long table
-                                                     units_pool=['', 'Channel', 'RFI', 'a.u.', 'MEF', 'mef', 'au'], nfl=3 if ncl >= 3 else None,
+                                                     units_pool=['', 'Channel', 'RFI', 'a.u.', 'MEF', 'mef', 'au'] if not wide else ['RFI', 'a.u.', 'Channel', 'au'],
+                                                     nfl=(3 if ncl >= 3 else None) if not wide else 12,      # 'wide': twelve reported fluorescence channels, plotted
                                                      force_float_first=hist and cid[1] % 4 != 3,   # 2^18-resolution channel on the histogram sheet
                                                      zero_fraction_first=cid[1] % 3 == 1 or cid[1] % 6 == 3)            # a row whose gate keeps no event
         # clustering channels: 1, 2 or 3 of the instrument's fluorescence channels
